@@ -1,4 +1,4 @@
-\* generated by the builder of C02/C08; see MCSearchers.tla for the families
+\* generated with the builder script of C02/C08; families: MCSearchers.tla
 SPECIFICATION Spec
 CONSTANTS
   SegSizes <- Segs22
@@ -7,9 +7,12 @@ CONSTANTS
   ScoreNone = TRUE
   HeapTakeover = 10
   MaxCalls = 0
-  NTerms = 3
-  Queries <- QReplayNoK1
+  NTerms = 2
+  Family = "core2"
+  DropK1 = TRUE
+  Queries <- MCQueries
   FirstAdvanceOK <- FirstAdvNoQ2
 VIEW View
 INVARIANT EnumIsHits
+INVARIANT NoneEqualsScored
 CHECK_DEADLOCK FALSE
